@@ -519,6 +519,15 @@ func (d *decoderState) ReadToken() (Token, error) {
 	// Handle the next token.
 	var n int
 	switch next {
+	case 'n', 'f', 't', '0':
+		// A JSON object name must be a string. Check this before parsing
+		// the literal or number so that a malformed one is still reported
+		// at the start of the token, where the input stops being valid.
+		if d.Tokens.Last.NeedObjectName() {
+			return Token{}, wrapSyntacticError(d, ErrNonStringName, pos, +1)
+		}
+	}
+	switch next {
 	case 'n':
 		if jsonwire.ConsumeNull(d.buf[pos:]) == 0 {
 			pos, err = d.consumeLiteral(pos, "null")
